@@ -25,7 +25,7 @@ ASSUMPTIONS = ['held workers use a cooperative target, so thread workers can be 
 SHRINK = 'greedy'
 SHRINK_RUNS = 25
 TIME_BUDGET = {'quick': 170, 'thorough': 1700}
-REQUIRED = {'quick': {'check_after_death': 150, 'concurrent_check': 60, 'autoclose': 40, 'restart': 30, 'retention_checked': 100, 'create_during_active_children': 40, 'check_via_subclass': 60, 'check_via_instance': 10, 'reference_dropped_while_running': 25},
+REQUIRED = {'quick': {'check_after_death': 150, 'concurrent_check': 60, 'autoclose': 40, 'restart': 30, 'retention_checked': 100, 'create_during_active_children': 40, 'check_via_subclass': 60, 'check_via_instance': 10, 'reference_dropped_while_running': 25, 'enumeration_interrupted_in_is_alive': 40},
             'thorough': {'check_after_death': 700, 'concurrent_check': 300, 'autoclose': 120}}
 KINDS = ['thread', 'process', 'remote', 'p_thread', 'p_process', 'p_remote']
 
@@ -51,6 +51,7 @@ def strategy(tier):
         # the caller drops its reference to a running process / remote worker (fire and forget): it is still a live worker
         st.tuples(st.just('create_unreferenced'), st.sampled_from(['process', 'process', 'p_process', 'remote', 'p_remote'])),
         st.tuples(st.just('check_during_create')),
+        st.tuples(st.just('check_interrupted_in_probe')),
         st.tuples(st.just('autoclose'), st.lists(st.sampled_from(['thread', 'process', 'p_thread', 'p_process', 'p_remote']), min_size=1, max_size=3)),
         st.tuples(st.just('burst'), st.sampled_from(['thread', 'p_thread']), st.integers(5, 40 if tier == 'quick' else 300)),
     )
@@ -277,6 +278,31 @@ def run_case(case, ctx):
                     workers.append({'w': created['w'], 'kind': 'thread', 'path': npath, 'mode': 'hold'})
                 do_check(0, 'check_after_concurrent_create')
                 log.append(['check_during_create', fired['n']])
+            elif what == 'check_interrupted_in_probe':
+                # an asynchronous exception (a terminate request for the enumerating thread worker) surfaces exactly while active_children()
+                # is asking a registered worker whether it is alive: the enumeration may fail, the registry must not lose the live worker
+                import vworkers
+                from pyworkers.worker import WorkerTerminatedError
+                out.label('enumeration_interrupted_in_is_alive')
+                ppath = os.path.join(ctx.scratch, IC.fresh_name(ctx, 'c19') + '.rel')
+                probe = bounded(vworkers.ProbeThreadWorker, 25, vtargets.hold_until, args=[ppath, 1])
+                workers.append({'w': probe, 'kind': 'thread', 'path': ppath, 'mode': 'hold'})
+                checker = threading.get_ident()
+                fired = {'n': 0}
+
+                def hook(wk):
+                    if threading.get_ident() == checker and fired['n'] == 0 and wk is probe:
+                        fired['n'] = 1
+                        raise WorkerTerminatedError('terminate called')
+                vworkers.ProbeThreadWorker.HOOK[0] = hook
+                try:
+                    list(Worker.active_children())
+                except WorkerTerminatedError:
+                    pass
+                finally:
+                    vworkers.ProbeThreadWorker.HOOK[0] = None
+                do_check(0, 'check_after_interrupted_enumeration')
+                log.append(['check_interrupted_in_probe', fired['n']])
             elif what == 'autoclose':
                 out.label('autoclose')
                 inner = []
